@@ -48,7 +48,7 @@ def build(i1: int, n1: int, ev: int, b: bool, f: int, nn: bool, u2: int) -> Prog
     body1 = [(E[i1], E[n1] if n1 >= 0 else -1)]
     i2, n2 = (i1 + 3) % NE, (n1 + 5) % NE if n1 >= 0 else -1
     gen.add_proc(p, 1, ev, False, body1, nn)
-    gen.add_proc(p, 2, ev, True, [(E[i2], E[n2] if n2 >= 0 else -1), (E[i1], -1)], False)
+    gen.add_proc(p, 2, ev, True, [(E[i2], E[n2] if n2 >= 0 else -1), (E[i1], -1), (E[(i1 + 1) % NE], -1)], False)
     p.end(ev)
     if u2 == 1:
         p._open("program", "p1", "program p1")
